@@ -1,6 +1,46 @@
-(* Runner for property C07: wire arguments -> model -> wire result. Filled in by the C07 model. *)
+(* Runner for property C07: wire arguments -> model -> wire result.
+     c07 canon <flags> x<json text>    flags: bit 0 fix_comma, 1 fix_negfloat, 2 fix_eof, 3 fix_range, 4 fix_nullkey
+                                        (31 = the fixed code = `canon`, 0 = the unfixed tree = `canon_today`)
+       -> ( ok x<canonical bytes> ) | ( err <kind> ) | ( err panic )
+     c07 norm x<json text>  -> ( ok x<print (norm (parse text))> ) | ( err <kind> )   (the specification reading)
+     c07 premise x<json text> -> 1 | 0 | ( err <kind> ): floats_okb (parse text), the premise of the round-trip theorems
+   Same operation names as harness/c07.go (which ignores the flags). *)
 From Coq Require Import ZArith List String Bool.
-From Verif Require Import Base.Wire.
+From Verif Require Import Base.Wire Json.Json Json.C14n.
 Import ListNotations.
+Open Scope Z_scope.
 
-Definition run_c07 (args : list V) : list V := [verr "not-implemented"].
+Definition kind_name (k : errkind) : string :=
+  match k with
+  | ESyntax => "syntax" | EIncomplete => "incomplete" | ETrailing => "trailing" | EKey => "key"
+  | EUtf8 => "utf8" | ERange => "range" | EFuel => "fuel"
+  end.
+
+Definition enc_result (r : result bytes) : list V :=
+  match r with
+  | Ok o => [VL [VS (bs "ok"); VS o]]
+  | Err k => [verr (kind_name k)]
+  | Panic => [verr "panic"]
+  end.
+
+Definition cfg_of_flags (z : Z) : cfg :=
+  mkCfg (Z.testbit z 0) (Z.testbit z 1) (Z.testbit z 2) (Z.testbit z 3) (Z.testbit z 4).
+
+Definition run_c07 (args : list V) : list V :=
+  match args with
+  | o :: rest =>
+    let op := opname o in
+    if String.eqb op "canon" then
+      enc_result (canon_at (cfg_of_flags (vz (nth 0 rest (VI 0)))) (vs_ (nth 1 rest (VS []))))
+    else if String.eqb op "norm" then
+      enc_result (bind (parse (vs_ (nth 0 rest (VS [])))) (fun v => print (norm v)))
+    else if String.eqb op "premise" then
+      (* the computable float premise of the round-trip theorems on the value read from the text *)
+      match parse (vs_ (nth 0 rest (VS []))) with
+      | Ok v => [VB (floats_okb v)]
+      | Err k => [verr (kind_name k)]
+      | Panic => [verr "panic"]
+      end
+    else [verr "unknown-c07-op"]
+  | [] => [verr "unknown-c07-op"]
+  end.
